@@ -48,6 +48,10 @@ pub const STRESS: &[&str] = &[
     "multiclass M { }\nmulticlass N { def; defm; foreach i = [1] in def; let a = 1 in def; if 1 then def; assert 1, \"\"; dump 1; }\n",
     "dump \"x\";\ndump !repr(1);\ndef d { dump d; }\nassert d, d;\n",
     "class A<int x>;\ndef d : A<!range(1)>, A<!getdagarg<int>((d 1), 0)>, A<!exists<A>(\"d\")>, A<!listremove([1],[1])>, A<!tolower(\"A\")>, A<!initialized(d)>, A<!logtwo(4)>, A<!div(1, 0)>;\n",
+    "#ifndef G\n#define G\nclass A;\n#ifdef G\ndef a : A;\n#else\ndef b : Undefined;\n#endif\n#endif\ndef c : A;\n",
+    "#ifdef \"FOO\nclass A;\n#define !foo\n#ifndef @\ndef a;\n#endif\n#define [{ never closed\n",
+    "#define\n#ifdef\n#ifndef /* c */ $1\n#else\n#endif\n#endif\n#ifdef 99999999999999999999999\nclass A;\n#define ..\n",
+    "class A;\n#ifdef X\nclass B : A;\n#else\nclass C : A {\n#endif\n}\ndef d : C;\n#ifndef X\n",
     "def d { int a = !cast(1); int b = !isa(d); int c = !exists(\"d\"); int e = !getdagop((d)); dag f = !setdagop<int>((d), d); }\n",
 ];
 
@@ -85,6 +89,19 @@ fn derived_states(base: &Workspace, rng: &mut Rng, n_prefix: usize, n_edit: usiz
             let mut w = base.clone();
             w.files[fi].1 = text[..e].to_string();
             out.push((w, "prefix-char"));
+        }
+        // directed edits around preprocessor directives: the token after a directive replaced by lexemes the
+        // lexer rejects or that are not names
+        for (i, p) in pieces.iter().enumerate() {
+            if text[p.0..p.1].starts_with('#') && p.1 - p.0 > 1 {
+                if let Some(next) = pieces[i + 1..].iter().find(|q| q.2 != texts::PieceKind::Space) {
+                    for bad in ["\"unterminated", "@", "..", "!nosuchop", "$1", "99999999999999999999999", "[{ open", ""] {
+                        let mut w = base.clone();
+                        w.files[fi].1 = format!("{}{}{}", &text[..next.0], bad, &text[next.1..]);
+                        out.push((w, "edit-directive-operand"));
+                    }
+                }
+            }
         }
         for _ in 0..n_edit {
             let (m, tag) = texts::mutate(&text, rng);
